@@ -23,9 +23,13 @@ enum Ctl {
     Detach,
     /// insert a fresh target component (initial values), whether or not one is present
     Attach,
+    /// the documented seek recipe: `reset()` followed by an assignment to the public `timeline_position`
+    /// (1/2 s: exactly the delay of the delayed timings; 3/2 s: at or past the end of the short ones)
+    SeekHalf,
+    SeekLate,
 }
 const CTLS: [Ctl; 5] = [Ctl::Nothing, Ctl::Disable, Ctl::Enable, Ctl::Reset, Ctl::SetT2];
-const ALL_CTLS: [Ctl; 7] = [Ctl::Nothing, Ctl::Disable, Ctl::Enable, Ctl::Reset, Ctl::SetT2, Ctl::Detach, Ctl::Attach];
+const ALL_CTLS: [Ctl; 9] = [Ctl::Nothing, Ctl::Disable, Ctl::Enable, Ctl::Reset, Ctl::SetT2, Ctl::Detach, Ctl::Attach, Ctl::SeekHalf, Ctl::SeekLate];
 
 fn timings() -> Vec<Tm> {
     let mut v = vec![];
@@ -302,6 +306,12 @@ fn run_schedule_late(sched: &[f64], ctl_histories: &[Vec<Ctl>], tms: &[Cf], late
                     Ctl::SetT2 => {
                         tl2.set_on(&mut a);
                         ent.on_t2 = true;
+                        ent.ended_events_in_run = 0;
+                        ent.entered_ended_in_run = false;
+                    }
+                    Ctl::SeekHalf | Ctl::SeekLate => {
+                        a.reset();
+                        a.timeline_position = Duration::from_millis(if c == Ctl::SeekHalf { 500 } else { 1500 });
                         ent.ended_events_in_run = 0;
                         ent.entered_ended_in_run = false;
                     }
@@ -641,13 +651,48 @@ pub fn run(run: Run) -> ! {
     );
     let pr_apps = pr.apps;
     merge(&mut acc, pr);
+    // seek pass: the documented `reset()` + `timeline_position = ...` recipe, once per history (at any frame, also
+    // before the first), alone or followed by a reset / disable-enable: all schedules
+    let mut sk_ctl: Vec<Vec<Ctl>> = vec![];
+    for pos in 0..depth {
+        for sk in [Ctl::SeekHalf, Ctl::SeekLate] {
+            let mut h = vec![Ctl::Nothing; depth];
+            h[pos] = sk;
+            sk_ctl.push(h.clone());
+            if pos + 2 < depth {
+                let mut h2 = h.clone();
+                h2[pos + 2] = Ctl::Reset;
+                sk_ctl.push(h2);
+                let mut h3 = h.clone();
+                h3[pos + 1] = Ctl::Disable;
+                h3[pos + 2] = Ctl::Enable;
+                sk_ctl.push(h3);
+            }
+        }
+    }
+    let skp = par_fold(
+        nsched,
+        Acc::default,
+        |si, acc| {
+            let mut sched = vec![];
+            let mut c = si;
+            for _ in 0..depth {
+                sched.push(DELTAS[c % 4]);
+                c /= 4;
+            }
+            run_schedule(&sched, &sk_ctl, &tms, (3u64 << 60) | (si as u64) << 40, acc);
+        },
+        merge,
+    );
+    let sk_apps = skp.apps;
+    merge(&mut acc, skp);
     let mut cov = Map::new();
     cov.insert("states".into(), json!(acc.entity_frames));
     cov.insert("transitions".into(), json!(acc.entity_frames));
     cov.insert("traces_validated_against_impl".into(), json!(acc.apps));
     cov.insert("evaluations".into(), json!(acc.rule_checks));
     cov.insert("distinct_nontrivial".into(), json!(acc.nontrivial));
-    cov.insert("rule".into(), json!(format!("real headless bevy App (AnimationPlugin<C>, hand-driven Time resource, single-threaded executor): ALL {} frame-delta schedules of length {} over {{0, 2^-9, 1/4, 8}} s x ALL {} per-entity control histories over {{nothing, disable, enable, reset, set_timeline(T2)}} (one control before each frame) x 16 timeline configurations (12 plain: delay 0|1/2 x None|Times 1|Infinite x forward|reverse, cycle 1 s; 4 MergedTimelines of two components staggered by delay and/or with different repeat counts - delay = smallest, total = largest component total), one App per schedule hosting every (timing, control history) as its own entity; plus a deviation-bounded pass: default delta 1/4, all schedules of {} frames with <= {} deviations ({} schedules) x control histories with <= 1 control; plus a non-dyadic pass ({} schedules over deltas 0, 50 ms, 100 ms, 8 s x 8 timelines whose totals are not exactly representable - 0.3/0.4/0.7/0.3 s, and four with a delay whose sum with the total rounds (0.3+1, 0.1+2, 0.5+0.4, 0.1+2x1 reversing) x reset histories); plus a late pass ({} Apps: a second copy of every entity is spawned into the running App before frame 1, 2 or 3); plus a clock pass ({} Apps: Time::set_relative_speed(2 | 1/2), Time::pause during the odd frames or during frames 1-2 - the frame's delta is Time::delta()); plus a presence pass ({} Apps: all schedules x ALL histories over {{nothing, detach the target component, attach a fresh one}}; histories starting with detach spawn the animator without the component) - the animator's clock, state and events must not depend on the component being there, R6/R7 apply while it is. Rules per entity-frame: R1 position += delta while Waiting/Playing and frozen when Ended; R2 state never moves backwards; R3 Waiting only while position < delay; R4 Ended iff position >= total (checked at the frame-start position); R5 never Ended when infinite; R6 Ended => component == terminal values; R7 Playing => component == timeline at the frame-start position; R8 disabled => nothing changes, no event; R9 exactly one event per state change carrying the final state, one Ended per run. non-trivial = entity-frames in which the state changed", nsched, depth, ctl_h.len(), horizon, k, dev_apps, nd_apps, late_apps, clock_apps, pr_apps)));
+    cov.insert("rule".into(), json!(format!("real headless bevy App (AnimationPlugin<C>, hand-driven Time resource, single-threaded executor): ALL {} frame-delta schedules of length {} over {{0, 2^-9, 1/4, 8}} s x ALL {} per-entity control histories over {{nothing, disable, enable, reset, set_timeline(T2)}} (one control before each frame) x 16 timeline configurations (12 plain: delay 0|1/2 x None|Times 1|Infinite x forward|reverse, cycle 1 s; 4 MergedTimelines of two components staggered by delay and/or with different repeat counts - delay = smallest, total = largest component total), one App per schedule hosting every (timing, control history) as its own entity; plus a deviation-bounded pass: default delta 1/4, all schedules of {} frames with <= {} deviations ({} schedules) x control histories with <= 1 control; plus a non-dyadic pass ({} schedules over deltas 0, 50 ms, 100 ms, 8 s x 8 timelines whose totals are not exactly representable - 0.3/0.4/0.7/0.3 s, and four with a delay whose sum with the total rounds (0.3+1, 0.1+2, 0.5+0.4, 0.1+2x1 reversing) x reset histories); plus a late pass ({} Apps: a second copy of every entity is spawned into the running App before frame 1, 2 or 3); plus a clock pass ({} Apps: Time::set_relative_speed(2 | 1/2), Time::pause during the odd frames or during frames 1-2 - the frame's delta is Time::delta()); plus a presence pass ({} Apps: all schedules x ALL histories over {{nothing, detach the target component, attach a fresh one}}; histories starting with detach spawn the animator without the component) - the animator's clock, state and events must not depend on the component being there, R6/R7 apply while it is; plus a seek pass ({} Apps: the documented reset() + timeline_position = 1/2 s | 3/2 s recipe at any one frame, alone or followed by a reset or a disable/enable). Rules per entity-frame: R1 position += delta while Waiting/Playing and frozen when Ended; R2 state never moves backwards; R3 Waiting only while position < delay; R4 Ended iff position >= total (checked at the frame-start position); R5 never Ended when infinite; R6 Ended => component == terminal values; R7 Playing => component == timeline at the frame-start position; R8 disabled => nothing changes, no event; R9 exactly one event per state change carrying the final state, one Ended per run. non-trivial = entity-frames in which the state changed", nsched, depth, ctl_h.len(), horizon, k, dev_apps, nd_apps, late_apps, clock_apps, pr_apps, sk_apps)));
     cov.insert("exhaustive".into(), json!(true));
     cov.insert("apps".into(), json!(acc.apps));
     cov.insert("events_observed".into(), json!(acc.events));
